@@ -187,7 +187,7 @@ func init() {
 		"stateCount":        func(parent chainnodeAlias) Node { return parent.StateCount(nil) },
 		"shift":             func(parent chainnodeAlias) Node { return parent.Shift(0) },
 		"sideload":          func(parent chainnodeAlias) Node { return parent.Sideload() },
-		"sample":            func(parent chainnodeAlias) Node { return parent.Sample(0) },
+		"sample":            func(parent chainnodeAlias) Node { return parent.Sample(int64(0)) },
 		"log":               func(parent chainnodeAlias) Node { return parent.Log() },
 		"kapacitorLoopback": func(parent chainnodeAlias) Node { return parent.KapacitorLoopback() },
 		"k8sAutoscale":      func(parent chainnodeAlias) Node { return parent.K8sAutoscale() },
@@ -202,6 +202,8 @@ func init() {
 		"default":           func(parent chainnodeAlias) Node { return parent.Default() },
 		"combine":           func(parent chainnodeAlias) Node { return parent.Combine(nil) },
 		"alert":             func(parent chainnodeAlias) Node { return parent.Alert() },
+		"barrier":           func(parent chainnodeAlias) Node { return parent.Barrier() },
+		"trickle":           func(parent chainnodeAlias) Node { return parent.Trickle() },
 	}
 
 	multiParents = map[string]func(chainnodeAlias, []Node) Node{
@@ -521,12 +523,17 @@ func isChainNode(node Node) (chainnodeAlias, bool) {
 	if ok {
 		return &shift.chainnode, true
 	}
+	barrier, ok := node.(*BarrierNode)
+	if ok {
+		return &barrier.chainnode, true
+	}
 	return nil, false
 }
 
 // chainnodeAlias is used to check for the presence of a chain node
 type chainnodeAlias interface {
 	Alert() *AlertNode
+	Barrier() *BarrierNode
 	Bottom(int64, string, ...string) *InfluxQLNode
 	Children() []Node
 	Combine(...*ast.LambdaNode) *CombineNode
@@ -577,6 +584,7 @@ type chainnodeAlias interface {
 	Sum(string) *InfluxQLNode
 	SwarmAutoscale() *SwarmAutoscaleNode
 	Top(int64, string, ...string) *InfluxQLNode
+	Trickle() *TrickleNode
 	Union(...Node) *UnionNode
 	Wants() EdgeType
 	Window() *WindowNode
